@@ -85,7 +85,7 @@ pub struct LargeCase {
 
 pub fn large_case(max_size: usize) -> impl Strategy<Value = LargeCase> {
     // log-uniform size: 2^(1 + x * log2(max/2))
-    (0u8..7, 0u16..=1000, any::<u8>()).prop_map(move |(shape, x, extra)| {
+    (0u8..8, 0u16..=1000, any::<u8>()).prop_map(move |(shape, x, extra)| {
         let lg = (max_size as f64 / 2.0).log2();
         let size = (2.0 * (2f64).powf(lg * x as f64 / 1000.0)).round() as usize;
         LargeCase {
@@ -202,11 +202,79 @@ fn cmd_heavy_graph() -> Graph {
     Graph { root_named: false, nproj: 1, targets: vec![b(vec![]), b(vec![0]), b(vec![1])] }
 }
 
+/// Shape 7: the same short chain, every target tracking (as input and as output) a directory that
+/// holds, besides regular files, entries that are not regular files: a FIFO nobody writes to, a
+/// socket, a dangling link, a link cycle, links to a directory and to /dev/zero, a deep nest.
+fn plant_special_entries(dir: &Path, bits: u8) -> Vec<&'static str> {
+    use std::os::unix::ffi::OsStrExt;
+    let mut planted = vec![];
+    for sub in ["tracked", "produced"] {
+        let d = dir.join(sub);
+        let _ = std::fs::create_dir_all(&d);
+        let _ = std::fs::write(d.join("regular.txt"), b"regular\n");
+        if bits & 1 != 0 {
+            let c = std::ffi::CString::new(d.join("pipe").as_os_str().as_bytes()).unwrap();
+            unsafe { libc::mkfifo(c.as_ptr(), 0o644) };
+            planted.push("fifo");
+        }
+        if bits & 2 != 0 {
+            if let Ok(l) = std::os::unix::net::UnixListener::bind(d.join("sock")) {
+                drop(l);
+                planted.push("socket");
+            }
+        }
+        if bits & 4 != 0 {
+            let _ = std::os::unix::fs::symlink("/nonexistent/zv-dangling", d.join("dangling"));
+            let _ = std::os::unix::fs::symlink("loop-b", d.join("loop-a"));
+            let _ = std::os::unix::fs::symlink("loop-a", d.join("loop-b"));
+            planted.push("dangling+cycle");
+        }
+        if bits & 8 != 0 {
+            let _ = std::os::unix::fs::symlink("/dev/zero", d.join("zero"));
+            planted.push("link-to-device");
+        }
+        if bits & 16 != 0 {
+            let _ = std::os::unix::fs::symlink("..", d.join("up"));
+            planted.push("link-to-parent-dir");
+        }
+        if bits & 32 != 0 {
+            let mut p = d.clone();
+            for k in 0..60 {
+                p = p.join(format!("d{}", k));
+            }
+            let _ = std::fs::create_dir_all(&p);
+            let _ = std::fs::write(p.join("deep.txt"), b"deep\n");
+            planted.push("deep-nest");
+        }
+    }
+    planted.dedup();
+    planted
+}
+
 pub fn eval_large(c: &LargeCase) -> CaseResult {
     let cmd_heavy = c.shape == 6;
-    let (g, roots, shape) = if cmd_heavy { (cmd_heavy_graph(), vec![2], "cmd-heavy") } else { large_graph(c) };
+    let special = c.shape == 7;
+    let (g, roots, shape) = if cmd_heavy {
+        (cmd_heavy_graph(), vec![2], "cmd-heavy")
+    } else if special {
+        (cmd_heavy_graph(), vec![2], "special-entries")
+    } else {
+        large_graph(c)
+    };
     let sb = Sandbox::new("c04");
     let dir = write_graph_project(&sb, &g, &|_| String::new());
+    let mut planted: Vec<&'static str> = vec![];
+    if special {
+        let bits = if c.extra & 63 == 0 { 63 } else { c.extra & 63 };
+        planted = plant_special_entries(&dir, bits);
+        let path = dir.join("zinoma.yml");
+        let mut doc: Value = serde_json::from_str(&std::fs::read_to_string(&path).unwrap()).unwrap();
+        for (_, t) in doc["targets"].as_object_mut().unwrap().iter_mut() {
+            t["input"] = json!([{"paths": ["tracked"]}]);
+            t["output"] = json!([{"paths": ["produced"]}]);
+        }
+        std::fs::write(&path, serde_json::to_string_pretty(&doc).unwrap()).unwrap();
+    }
     if cmd_heavy {
         // add the command input to every target
         let path = dir.join("zinoma.yml");
@@ -236,11 +304,11 @@ pub fn eval_large(c: &LargeCase) -> CaseResult {
             dep_count.values().copied().max().unwrap_or(0)
         });
     let depth = if shape == "chain" { g.n() } else { 0 };
-    let nontrivial = max_fan >= 33 || depth >= 50 || roots.len() >= 33 || (cmd_heavy && c.size * 100 > 65_536);
-    let sample = json!({"shape": shape, "size": c.size, "targets": g.n(), "requested": roots.len(), "max_fan": max_fan});
+    let nontrivial = max_fan >= 33 || depth >= 50 || roots.len() >= 33 || (cmd_heavy && c.size * 100 > 65_536) || (special && !planted.is_empty());
+    let sample = json!({"shape": shape, "size": c.size, "targets": g.n(), "requested": roots.len(), "max_fan": max_fan, "non_regular_entries": planted});
     let mut r = CaseResult {
         nontrivial,
-        fingerprint: format!("{}|{}", shape, (c.size as f64).log2().floor()),
+        fingerprint: if special { format!("{}|{:?}", shape, planted) } else { format!("{}|{}", shape, (c.size as f64).log2().floor()) },
         classes: vec![
             format!("shape-{}", shape),
             format!("size-2^{}", (c.size as f64).log2().floor()),
